@@ -52,6 +52,25 @@ CLAIMED = {
    note="Trusted: Coq kernel + vm_compute; hand-written model (correspondence only); TF autodiff equals the closed-form gradients of the two polynomial families; "
         "the 'all smooth models' clause is covered only by these families; float32 exact on dyadic inputs when steps-1 is a power of two else tol 1e-5 scaled.",
    design="5 (C04)", technique="Coq proof Model=Spec (induction over chunks, ring/field/nra) + closed-form completeness theorems; differential correspondence (vm_compute)"),
+ "C14": dict(
+   text="Machine-checked proof (Coq 8.16.1, closed under the global context) that an executable Gallina transcription of CausalFidelity.detailed_evaluate/evaluate "
+        "(Deletion, Insertion) equals the documented curve for every score, argsort, shape, channel count, steps (-1 and > features included), max_percentage, "
+        "baseline, number of samples and batch size; plus proofs of step spacing, ranking-only dependence, end points, Insertion/Deletion duality (pointwise and on "
+        "the full grid), trapezoid form, batch invariance and optimality of exact attributions for additive models. Tied to /repo on every run by a correspondence "
+        "check through the public API.",
+   note="Trusted: Coq kernel + vm_compute; the hand-written model; harness; NumPy argsort and linspace (float64 artefacts of integer linspace guarded and counted); "
+        "row-wise score; tolerance 1e-5 where float32 division is inexact; activation options not exercised.",
+   design="5 (C14)", technique="Coq proof Model=Spec (index arithmetic, dictionary fold, StronglySorted/Permutation uniqueness of rankings, exchange argument for top-k) + differential correspondence (vm_compute)"),
+ "C13": dict(
+   text="Machine-checked proofs over two state machines: (1) a heap model of the class-level model cache (objects with unique identity, Python ids reusable after "
+        "garbage collection, models sharing input/output tensors): for every history a new explainer explains the function of the model it is given and keeps doing so; "
+        "(2) a generic object with lazily set kind-determined fields and per-call accumulators: the result of a call is independent of earlier calls. Tied to /repo by "
+        "replaying random model/explainer/discard histories on real Keras objects against the Coq heap model, and by history-vs-fresh-object runs of all 16 methods "
+        "and 4 metrics under identical seeds with byte comparison of inputs, targets and weights.",
+   note="Trusted: Coq kernel + vm_compute; the heap model's assumptions (a functional model's function is determined by its tensor objects; CPython frees unreachable "
+        "objects, ids unique among live objects); the history stream is implementation-vs-implementation (observational tie of the generic machine), seeds fix the draws "
+        "(random methods run eagerly); object aliasing itself is observed by byte equality, not modelled.",
+   design="5 (C13)", technique="Coq invariant proofs by induction over operation histories (heap/cache state machine, lazy-field machine) + replay of histories on the real objects"),
 }
 PENDING_REASON = "check not built yet in this session (work in progress; planned in DESIGN.md section 5)"
 
